@@ -707,6 +707,8 @@ pub fn main(args: &[String]) -> i32 {
     let mut cur_hist: Option<PathBuf> = None;
     let mut sched_threads: Vec<Vec<Vec<String>>> = vec![];
     let mut tracing = false;
+    let mut op_index = 0usize;
+    let cut_op: Option<usize> = std::env::var("UVH_CUT_OP").ok().and_then(|x| x.parse().ok());
     use std::io::Write;
     let stdout = std::io::stdout();
     let mut out = std::io::BufWriter::new(stdout.lock());
@@ -747,7 +749,16 @@ pub fn main(args: &[String]) -> i32 {
             "op" => {
                 LOG.lock().unwrap().clear();
                 ACT.lock().unwrap().clear();
+                op_index += 1;
+                let arm = cut_op == Some(op_index);
+                if arm {
+                    std::env::set_var("SHIM_PREFIX", w.storage.to_str().unwrap());
+                    std::env::set_var("SHIM_ARMED", "1");
+                }
                 let o = w.exec(&toks[1..]);
+                if arm {
+                    std::env::remove_var("SHIM_ARMED");
+                }
                 wait_quiescent();
                 w.snapshot();
                 let net = LOG.lock().unwrap().clone();
@@ -791,6 +802,28 @@ pub fn main(args: &[String]) -> i32 {
     let v = DEPTH_VIOLATIONS.lock().unwrap();
     for x in v.iter() {
         writeln!(out, "DEPTH-VIOLATION {}", x).unwrap();
+    }
+    0
+}
+
+// after <history dir> <init op tokens...>: prints the abstract state of the (crashed) directory, then
+// plays the next launch: init, nextnum, nextpath, curnum
+pub fn after(args: &[String]) -> i32 {
+    let hist = PathBuf::from(&args[0]);
+    let mut w = World::new(&hist);
+    w.storage = hist.join("storage");
+    w.cache = hist.join("cache");
+    w.base_path = hist.join("libapp.so");
+    println!("{}", abs_line("crash", &w.storage, &[]));
+    if args.len() > 1 {
+        let toks: Vec<&str> = args[1..].iter().map(|x| x.as_str()).collect();
+        let mut outs = vec![];
+        outs.push(w.exec_api(&toks));
+        for q in [["nextnum"], ["nextpath"], ["curnum"]] {
+            outs.push(w.exec_api(&q));
+        }
+        wait_quiescent();
+        println!("{}", abs_line(&outs.join(","), &w.storage, &[]));
     }
     0
 }
